@@ -58,7 +58,10 @@ def run_cli(spec, tier, seed):
                 path = os.path.join(tmp, 'in.ini')
                 write_ini(path, amap)
                 args = ['solve', path, '--year', str(year)]
-                for f in p.forms():
+                # every other filer also names a statement form of its own after the return (several --form options, the last
+                # of which does not lead back to Form 1040)
+                req = list(p.forms()) + (['w-2:0'] if k % 2 == 0 else [])
+                for f in req:
                     args += ['--form', f]
                 if (k + len(name)) % 2 == 1:
                     # the report is due whether the solution goes to the terminal or to a file
@@ -67,7 +70,7 @@ def run_cli(spec, tier, seed):
                 r = cli.run_cli(args)
                 q = scen.Persona(year, fam, p.key)
                 q.nc = p.nc
-                o2, tv2, _ = realwork.traced(q, file_map=dict(amap), refuse_from=0, forms=p.forms())
+                o2, tv2, _ = realwork.traced(q, file_map=dict(amap), refuse_from=0, forms=req)
                 res.evaluations += 1
                 res.count('cli_runs')
                 rp = {'engine': 'cli', 'persona': p.describe(), 'variant': name, 'shard': spec}
